@@ -219,6 +219,15 @@ type world struct {
 	conns  map[string]*pconn
 	tagSeq int
 	strict bool // main world: any unexpected notification is a failure
+
+	context func() string // describes the message being judged (for failure texts)
+}
+
+func (w *world) ctx() string {
+	if w.context == nil {
+		return ""
+	}
+	return "\nafter:" + w.context()
 }
 
 func tmpBase() string {
@@ -465,8 +474,8 @@ func (w *world) sync(f failer, tr string) (closed bool) {
 			return
 		}
 		if w.strict {
-			f.Fatalf("%s: %s: unexpected notification sub=%s tag=%s (expected live set %v, tag %s): a subscription exists that no keyed request created",
-				w.name, tr, n.sub, n.tag, c.live, tag)
+			f.Fatalf("%s: %s: unexpected notification sub=%s tag=%s (expected live set %v, tag %s): a subscription exists that no keyed request created%s",
+				w.name, tr, n.sub, n.tag, c.live, tag, w.ctx())
 		}
 	}
 	it, closed := w.call(f, tr, "probe_emit", "["+tag+"]", onNote)
@@ -474,12 +483,12 @@ func (w *world) sync(f failer, tr string) (closed bool) {
 		return true
 	}
 	if !it.hasResult {
-		f.Fatalf("%s: %s: keyed probe_emit failed: %s", w.name, tr, it.raw)
+		f.Fatalf("%s: %s: keyed probe_emit failed: %s%s", w.name, tr, it.raw, w.ctx())
 	}
 	// Activated subscriptions deliver before the answer to probe_emit.
 	for id := range pending {
 		if c.shaken[id] {
-			f.Fatalf("%s: %s: live subscription %s no longer delivers notifications (live set %v)", w.name, tr, id, c.live)
+			f.Fatalf("%s: %s: live subscription %s no longer delivers notifications (live set %v)%s", w.name, tr, id, c.live, w.ctx())
 		}
 	}
 	// Fresh subscriptions are activated just after the answer that announced
@@ -510,7 +519,7 @@ func (w *world) unsubscribeKeyed(f failer, tr, id string) (closed bool) {
 		return true
 	}
 	if !it.hasResult || it.result != "true" {
-		f.Fatalf("%s: %s: live subscription %s cannot be unsubscribed with the key: %s", w.name, tr, id, it.raw)
+		f.Fatalf("%s: %s: live subscription %s cannot be unsubscribed with the key: %s%s", w.name, tr, id, it.raw, w.ctx())
 	}
 	c.dropLive(id)
 	return false
